@@ -66,6 +66,14 @@ impl MultiUidCompactor {
         let output_label = SegmentId::from(shared_output_segment_id).dir_name();
         let output_dir = self.shard_dir.join(&output_label);
 
+        // The output id is allocated from the segment index, so a directory that already
+        // carries it was left behind by a run that failed or crashed before publishing.
+        // Start from an empty directory instead of mixing its stale files into the new segment.
+        if output_dir.exists() {
+            std::fs::remove_dir_all(&output_dir)
+                .map_err(|e| CompactorError::ZoneWriter(e.to_string()))?;
+        }
+
         // Ensure output directory exists once for all UIDs
         std::fs::create_dir_all(&output_dir)
             .map_err(|e| CompactorError::ZoneWriter(e.to_string()))?;
